@@ -84,6 +84,8 @@ std::string Plan::to_text() const
 		snprintf(b, sizeof b, "%016llx", (unsigned long long)fingerprint);
 		o << "fingerprint " << b << "\n";
 	}
+	if (is_history)
+		o << "history " << hist_seed << " " << hist_tier << " " << hist_step << " " << hist_start << " " << hist_last << "   # VERIF_SEED tier step first-index last-index\n";
 	for (auto &kv : cfg)
 		o << "cfg " << kv.first << " " << kv.second << "\n";
 	for (auto &kv : scfg)
@@ -143,6 +145,11 @@ bool Plan::from_text(const std::string &txt, Plan &out, std::string &err)
 			std::string h;
 			ls >> h;
 			out.fingerprint = strtoull(h.c_str(), nullptr, 16);
+		}
+		else if (w == "history")
+		{
+			ls >> out.hist_seed >> out.hist_tier >> out.hist_step >> out.hist_start >> out.hist_last;
+			out.is_history = true;
 		}
 		else if (w == "cfg")
 		{
